@@ -8,7 +8,7 @@ Decimal fields are compared by decoded meaning (the grammar admits several
 import struct
 
 from .. import canon, refcodec, refspec
-from ..gen import frames as gf, values as gv, wire
+from ..gen import magic, frames as gf, values as gv, wire
 from ..mon import boundary
 from . import c01, c02, c03, common
 from .common import call
@@ -83,8 +83,30 @@ def cases(shard, rnd):
                                                rnd.randint(0, 255),
                                                rnd.randint(0, 255)]}
         for t, fmt, bits, signed in PRIMS:
-            for v in gv.width_points(bits, signed):
+            lo, hi = (-(1 << bits - 1), (1 << bits - 1) - 1) if signed \
+                else (0, (1 << bits) - 1)
+            for v in sorted(set(gv.width_points(bits, signed))
+                            | set(magic.pool().ints_in(lo, hi))):
                 yield {'kind': 'prim', 't': t, 'v': v}
+        # the live dictionary (constants of the tree under test) as body
+        # lengths / contents, version octets, strings
+        mp = magic.pool()
+        for n in mp.lengths:
+            if 1 <= n <= 140000:
+                yield {'kind': 'body', 'body': rnd.randbytes(n),
+                       'ch': gf.rchannel(rnd)}
+        for b in mp.bytes:
+            if b:
+                yield {'kind': 'body', 'body': b, 'ch': gf.rchannel(rnd)}
+        octs = [o for o in mp.base_ints if 0 <= o <= 255][:24]
+        for a in octs:
+            for b in octs:
+                for c in octs:
+                    yield {'kind': 'protocol', 'ver': [a, b, c]}
+        for m in mp.strs:
+            if len(m.encode('utf-8')) <= 255:
+                yield {'kind': 'prim', 't': 'short_string', 'v': m}
+            yield {'kind': 'prim', 't': 'long_string', 'v': m}
         for _ in range(shard['n']):
             yield {'kind': 'prim', 't': 'short_string',
                    'v': gv.rshortstr(rnd)}
